@@ -220,6 +220,20 @@ def handle : List String → String
       | .ok s => showEmit s
       | .error _ => "gen=fail:parse"
     | none => "bad-op"
+  -- several generations from one parsed schema object: about the history of one process, not about a
+  -- function's value — the model's side is the line the property demands whenever the schema is one the
+  -- generator accepts (`@path`: a file of the repository, not readable from here)
+  | ["c14.regen", _tag, text] =>
+    if text.startsWith "@" then "gens=ok,ok,ok,ok same=1 schema=unchanged fresh=1" else
+    match unesc text with
+    | some src =>
+      match parseSchema src with
+      | .ok s =>
+        match emit goName s with
+        | none => "gens=fail"
+        | some _ => "gens=ok,ok,ok,ok same=1 schema=unchanged fresh=1"
+      | .error _ => "regen=unparsed"
+    | none => "bad-op"
   -- the two observation-only operations: the model's side is what the property demands
   | ["c14.shipped", _path] => "parse=ok gen=ok same=1 build=ok vet=ok"
   | ["c14.sortfact"] => "maprange unknown=- missing-sort=-"
